@@ -157,6 +157,10 @@ func (r *rapidContext) HandleRestore(restore *interop.Restore) (interop.RestoreR
 }
 
 func (r *rapidContext) Clear() {
+	// init, invoke and reset handling read and write this state with the handler mutex held; an invoke
+	// that queued behind the reset must not run while the state is being cleared
+	r.handlerExecutionMutex.Lock()
+	defer r.handlerExecutionMutex.Unlock()
 	reinitialize(r)
 }
 
